@@ -523,7 +523,7 @@ def grammar():
         "(5,)seg": (1.0, 2.0, 1.0, 0.0, 90.0), "(5,)seg_r": (2.0, 1.0, 1.0, 0.0, 90.0), "(5,)seg_phi": (1.0, 2.0, 1.0, 90.0, 0.0), "(5,)seg_360": (1.0, 2.0, 1.0, 0.0, 400.0),
         "(5,)seg_h": (1.0, 2.0, -1.0, 0.0, 90.0), "(1,3)": [(1.0, 2.0, 3.0)], "(2,3)": [(0.0, 0.0, 0.0), (1.0, 0.0, 0.0)],
         "(3,3)": [(0.0, 0.0, 0.0), (1.0, 0.0, 0.0), (0.0, 1.0, 0.0)], "(4,3)": [(0.0, 0.0, 0.0), (1.0, 0.0, 0.0), (0.0, 1.0, 0.0), (0.0, 0.0, 1.0)],
-        "(5,3)": [(0.0, 0.0, 0.0)] * 5, "(4,2)": np.ones((4, 2)), "(3,2)": np.ones((3, 2)), "(4,4)": np.ones((4, 4)), "(2,2,3)": np.ones((2, 2, 3)),
+        "(5,3)": [(0.0, 0.0, 0.0)] * 5, "(4,2)": np.ones((4, 2)), "(3,2)": np.ones((3, 2)), "(4,4)": np.ones((4, 4)), "(2,2,3)": np.ones((2, 2, 3)), "(0,3)": np.zeros((0, 3)),
         "0-d": np.array(1.0), "empty": [], "(3,)complex": [1.0, 2.0, 1j], "(3,)dict": [1.0, 2.0, {}], "(3,)obj": [1.0, 2.0, object()], "ragged": [1, [2, 3], 4], "strs": ["1", "2", "x"], "(3,1)": [[1.0], [2.0], [3.0]], "dict": {"a": 1}, "complex": 1 + 2j,
         "[left]": ["left"], "right": "right",
     }
@@ -546,7 +546,7 @@ MUST_REJECT = {
     ("Sensor", "pixel"): ["(2,)", "(3,2)", "float", "str", "0-d"],
     ("Sensor", "handedness"): ["str", "None", "int", "[left]"],
     ("Cuboid", "polarization"): ["(2,)", "(1,3)", "str", "float", "ragged", "strs"],
-    ("Cuboid", "position"): ["(2,)", "(2,2,3)", "str", "float"],
+    ("Cuboid", "position"): ["(2,)", "(2,2,3)", "str", "float", "(0,3)"],
 }
 MUST_ACCEPT = {
     ("Cuboid", "dimension"): ["(3,)", "[3]int", "None"], ("Cylinder", "dimension"): ["(2,)", "None"], ("CylinderSegment", "dimension"): ["(5,)seg", "None"],
